@@ -6,17 +6,42 @@ sys.path.insert(0, HERE)
 import vx, run, kanileg
 
 # property -> kani harnesses (complete = loop-free / unwinding-asserted full-domain proofs; bounded = stated bound)
+_ROUNDUP = ["u3_roundup_key_table", "u3_roundup_val_table", "u3_tables_are_the_documented_ones", "u3_is_valid_value", "u3_is_valid_key"]
+_VU64 = ["u0_encoded_len_is_spec", "u0_decoded_len_range", "u0_axiom_vu64"]
+_KEYTRAIT = ["u8_u64_cmp_u8_iff_equal", "u8_i64_cmp_u8_iff_equal", "u8_vu64_cmp_u8_iff_equal", "u8_u64_roundtrip", "u8_i64_roundtrip", "u8_vu64_roundtrip"]
+_HASH_INT = ["u9_hash_value_u64_all_values", "u9_hash_value_i64_all_values"] + ["u9_hash_value_vu64_len_%d" % i for i in range(1, 10)]
+_BYTES_CMP = {h: "byte/string keys of lengths (%s)" % h[len("u8_bytes_cmp_"):].replace("_", ",") for h in
+              ["u8_bytes_cmp_0_0", "u8_bytes_cmp_0_1", "u8_bytes_cmp_3_3", "u8_bytes_cmp_3_4", "u8_bytes_cmp_5_3", "u8_bytes_cmp_6_6"]}
+_HASH_STR = {"u9_hash_value_string_len_%d" % n: "string/bytes key of length %d" % n for n in (0, 1, 7, 8, 9, 16, 17)}
+# property -> kani harnesses (complete = loop-free / unwinding-asserted full-domain proofs; bounded = stated bound)
 KANI = {
-    "C09": {"complete": ["u0_encoded_len_is_spec", "u3_roundup_key_table", "u3_roundup_val_table", "u3_tables_are_the_documented_ones"], "bounded": {}},
+    "C01": {"complete": _KEYTRAIT + _VU64 + _ROUNDUP, "bounded": dict(_BYTES_CMP)},
+    "C05": {"complete": _ROUNDUP + _VU64, "bounded": {}},
+    "C06": {"complete": _ROUNDUP + ["u3_free_list_head_offset", "u3_slot_walk_one_step"], "bounded": {}},
+    "C07": {"complete": ["u6_capacity_to_buckets_size", "u6_capacity_zero_is_refused"], "bounded": {}},
+    "C08": {"complete": _ROUNDUP + _VU64, "bounded": {}},
+    "C09": {"complete": _ROUNDUP + _VU64, "bounded": {}},
+    "C10": {"complete": _KEYTRAIT + _VU64 + _HASH_INT, "bounded": dict(_BYTES_CMP)},
+    "C12": {"complete": ["u9_xorshift_is_documented_mixer", "u9_hasher_one_chunk", "u9_reference_matches_release_vectors",
+                         "c12_signatures_are_the_documented_ones"] + _HASH_INT + _VU64, "bounded": dict(_HASH_STR)},
+    "C13": {"complete": ["c13_signatures_pairwise_distinct", "c13_signatures_distinct_except_k2", "c12_signatures_are_the_documented_ones"], "bounded": {}},
+    "C14": {"complete": [], "bounded": {"c14_bulk_get_is_elementwise_batch_2": "map <= 1 entry before the call, batch of 2 one-byte keys",
+                                         "c14_bulk_delete_is_elementwise_batch_2_distinct": "map <= 1 entry, batch of 2 distinct one-byte keys",
+                                         "c14_bulk_put_is_elementwise_batch_2_distinct": "map <= 1 entry, batch of 2 distinct one-byte keys, one-byte values",
+                                         "c14_put_from_iter_applies_in_order_batch_2": "map <= 1 entry, 2 pairs"}},
+    "C17": {"complete": ["u3_free_list_head_offset", "u3_slot_walk_one_step"], "bounded": {"c17_touch_size_counts_each_touch_bounded_3": "3 touches, sizes <= 4",
+                                                                                       "c17_touch_length_counts_each_touch_bounded_3": "3 touches, lengths <= 4"}},
+    "C18": {"complete": ["u9_xorshift_is_documented_mixer", "u9_hasher_one_chunk"], "bounded": {}},
 }
+KANI_THOROUGH_EXTRA = {"C10": ["u9_hash_value_vu64_all_values"], "C12": ["u9_hash_value_vu64_all_values"]}
 VERUS_PROPS = set()   # filled from the overlay (@serves)
 # obligations that are verified in a property's closure but are not part of that property's statement
 # (the panic sites are obligations of the properties that promise "never panics": C01, C07, C08)
-NOT_ATTRIBUTED = {
-    "C03": [r"/pre:vpanic#"], "C05": [r"/pre:vpanic#"], "C06": [r"/pre:vpanic#"], "C09": [r"/pre:vpanic#"],
-    "C15": [r"/pre:vpanic#"], "C16": [r"/pre:vpanic#"], "C18": [r"/pre:vpanic#"], "C04": [r"/pre:vpanic#"], "C17": [r"/pre:vpanic#"],
-    "C02": [r"/pre:vpanic#"], "C12": [r"/pre:vpanic#"], "C13": [r"/pre:vpanic#"],
-}
+_PM = r"/pre:with_per_mille#"      # K3 is a C07 finding
+_VP = r"/pre:vpanic#"              # K1a/K1b are C01 / C08 findings
+NOT_ATTRIBUTED = {p: [_PM, _VP] for p in ("C02", "C03", "C04", "C05", "C06", "C09", "C12", "C13", "C15", "C16", "C17", "C18")}
+NOT_ATTRIBUTED["C01"] = [_PM]; NOT_ATTRIBUTED["C08"] = [_PM]; NOT_ATTRIBUTED["C07"] = [_VP]
+LEVEL = {"C14": "other"}
 
 def sanitize(s):
     return re.sub(r"[^A-Za-z0-9_.#-]+", "_", s)[:120]
@@ -39,7 +64,7 @@ def check(prop, tier, args):
     known = run.load_known()
     undecided = []
     failures = []          # dicts with 'oid', 'backend', ...
-    ev = {"property_id": prop, "tier": tier, "seed": seed, "level": "proof", "coverage": {}, "assumptions": list(run.TRUSTED)}
+    ev = {"property_id": prop, "tier": tier, "seed": seed, "level": LEVEL.get(prop, "proof"), "coverage": {}, "assumptions": list(run.TRUSTED)}
     cov = ev["coverage"]
     obligations = 0; discharged = 0
     samples = []
@@ -124,6 +149,9 @@ def check(prop, tier, args):
     kcfg = KANI.get(prop)
     if kcfg:
         hs = list(kcfg["complete"]) + list(kcfg["bounded"].keys())
+        if tier == "thorough":
+            kcfg = dict(kcfg); kcfg["complete"] = list(kcfg["complete"]) + KANI_THOROUGH_EXTRA.get(prop, [])
+            hs = list(kcfg["complete"]) + list(kcfg["bounded"].keys())
         kr = kanileg.run(run.REPO, hs)
         if kr.get("_undecided"):
             undecided.append("kani: " + kr["_undecided"])
